@@ -96,6 +96,13 @@ def r2(chk):
                 if pname not in want:
                     continue
                 txt = render(arg).replace(" ", "")
+                if not re.fullmatch(want[pname], txt):
+                    from ..src import local_defs, subst_locals
+                    t2 = subst_locals(txt, local_defs(fi))
+                    if t2 != txt:
+                        txt = t2 if t2.startswith("&") or pname == "fallible" else t2
+                        if pname in ("container_ty", "kind") and not txt.startswith("&") and re.fullmatch(want[pname], "&" + txt):
+                            txt = "&" + txt  # `let ty = &ctx.struct_attr.ty; .. f(ty)`
                 key = f"{fi.qual}:{m['method']}#{o}({pname})"
                 recognised_bad = bool(re.fullmatch(r"&?(Kind::\w+|true|false|ctx\.struct_attr\.\w+(\.\w+)*|ctx\.\w+)", txt)) and not re.fullmatch(want[pname], txt)
                 chk.shape("R2", key, bool(re.fullmatch(want[pname], txt)), recognised_bad, EXPAND, m["line"], "accessor called with something other than the current conversion's " + pname,
